@@ -360,13 +360,13 @@ theorem evalTxn_nk {P : Params} {x : Ctx} {l l' : Layer} {g : List Txn} {t : Txn
           exact nk_congr (fun b => acctOf_addTx x l1 _ b) (applyTxn_nk hcoh hwf h1 hn)
 
 theorem groupLoop_nk {P : Params} {x : Ctx} {g : List Txn} {g0 : Nat} (hcoh : P.keyregCoherency = true) :
-    ∀ (ts : List Txn) (i : Nat) (l l' : Layer), (∀ t ∈ ts, wellFormed P t = true) →
-      groupLoop P x g g0 i l ts = .ok l' → NoKeyedNonPart x l → NoKeyedNonPart x l' := by
+    ∀ (ts : List Txn) (used i : Nat) (l l' : Layer), (∀ t ∈ ts, wellFormed P t = true) →
+      groupLoop P x g g0 used i l ts = .ok l' → NoKeyedNonPart x l → NoKeyedNonPart x l' := by
   intro ts
   induction ts with
-  | nil => intro i l l' _ h hn; cases h; exact hn
+  | nil => intro used i l l' _ h hn; cases h; exact hn
   | cons t r ih =>
-    intro i l l' hwf h hn
+    intro used i l l' hwf h hn
     unfold groupLoop at h
     split at h
     · cases h
@@ -375,8 +375,10 @@ theorem groupLoop_nk {P : Params} {x : Ctx} {g : List Txn} {g0 : Nat} (hcoh : P.
       · cases h
       · split at h
         · cases h
-        · exact ih (i + 1) l1 l' (fun t' ht' => hwf t' (List.mem_cons_of_mem _ ht')) h
-            (evalTxn_nk hcoh (hwf t List.mem_cons_self) h1 hn)
+        · split at h
+          · cases h
+          · exact ih _ (i + 1) l1 l' (fun t' ht' => hwf t' (List.mem_cons_of_mem _ ht')) h
+              (evalTxn_nk hcoh (hwf t List.mem_cons_self) h1 hn)
 
 theorem firstMalformed_none {P : Params} : ∀ (ts : List Txn) (i : Nat), firstMalformed P i ts = none →
     ∀ t ∈ ts, wellFormed P t = true := by
@@ -393,8 +395,8 @@ theorem firstMalformed_none {P : Params} : ∀ (ts : List Txn) (i : Nat), firstM
       · exact ih (i + 1) h t' hr
     · cases h
 
-theorem evalGroupChild_nk {P : Params} {x : Ctx} {top child : Layer} {g : List Txn} (hcoh : P.keyregCoherency = true)
-    (h : evalGroupChild P x top g = .ok child) (hn : NoKeyedNonPart x top) : NoKeyedNonPart (childCtx x top) child := by
+theorem evalGroupChild_nk {P : Params} {x : Ctx} {top child : Layer} {used : Nat} {g : List Txn} (hcoh : P.keyregCoherency = true)
+    (h : evalGroupChild P x top used g = .ok child) (hn : NoKeyedNonPart x top) : NoKeyedNonPart (childCtx x top) child := by
   unfold evalGroupChild at h
   split at h
   · cases h
@@ -409,7 +411,7 @@ theorem evalGroupChild_nk {P : Params} {x : Ctx} {top child : Layer} {g : List T
         · split at h
           · cases h
           · cases h
-            exact groupLoop_nk (x := childCtx x top) hcoh g 0 {} child (firstMalformed_none g 0 hfm) hc (fun b => hn b)
+            exact groupLoop_nk (x := childCtx x top) hcoh g used 0 {} child (firstMalformed_none g 0 hfm) hc (fun b => hn b)
 
 theorem evalGroup_nk {P : Params} {x : Ctx} {s s' : EvalState} {g : List Txn} (hcoh : P.keyregCoherency = true)
     (h : evalGroup P x s g = .ok s') (hn : NoKeyedNonPart x s.top) : NoKeyedNonPart x s'.top := by
